@@ -1,2 +1,666 @@
-From KV Require Import C01.Model.
-Lemma placeholder : True. Proof. exact I. Qed.
+(* C01 — proofs about the model of C01/Model.v. *)
+From Coq Require Import ZArith String List Bool Lia Permutation.
+From KV Require Import Base.Req Base.ReqProofs Base.K8s C01.Model.
+Import ListNotations.
+Open Scope string_scope.
+Open Scope list_scope.
+Open Scope Z_scope.
+Local Arguments String.eqb : simpl never.
+
+(* ================================================================== resources *)
+
+Lemma rget_in_nonneg (k : string) (l : rl) :
+  forallb (fun kv => 0 <=? snd kv) l = true -> 0 <= rget k l.
+Proof.
+  induction l as [|[k' v] l IH]; simpl; [lia|].
+  intros H. apply andb_prop in H as [Hv Hl]. apply Z.leb_le in Hv.
+  destruct (String.eqb k k'); [exact Hv|apply IH, Hl].
+Qed.
+
+Lemma rget_member (k : string) (l : rl) :
+  rget k l = 0 \/ exists v, List.In (k, v) l /\ rget k l = v.
+Proof.
+  induction l as [|[k' v] l IH]; simpl; [left; reflexivity|].
+  destruct (String.eqb_spec k k') as [->|Hn].
+  - right. exists v. split; [left; reflexivity|reflexivity].
+  - destruct IH as [H|(w & Hin & Hw)]; [left; exact H|right; exists w; split; [right; exact Hin|exact Hw]].
+Qed.
+
+(* resources.Fits: every requested quantity is within the total, key by key (absent = 0) *)
+Lemma fits_spec (cand total : rl) :
+  fits cand total = true -> forall k, rget k cand <= rget k total.
+Proof.
+  unfold fits. intros H k. apply andb_prop in H as [Hnn Hc].
+  destruct (rget_member k cand) as [H0|(v & Hin & Hv)].
+  - rewrite H0. apply rget_in_nonneg, Hnn.
+  - rewrite Hv. rewrite forallb_forall in Hc. specialize (Hc (k, v) Hin). simpl in Hc. apply Z.leb_le, Hc.
+Qed.
+
+Lemma rget_radd1 (l : rl) (k k0 : string) (v : Z) :
+  rget k0 (radd1 l k v) = if String.eqb k0 k then rget k0 l + v else rget k0 l.
+Proof.
+  induction l as [|[k' v'] l IH]; simpl.
+  - destruct (String.eqb k0 k); lia.
+  - destruct (String.eqb_spec k k') as [->|Hn]; simpl.
+    + destruct (String.eqb_spec k0 k'); [reflexivity|]. destruct (String.eqb_spec k0 k'); [congruence|reflexivity].
+    + destruct (String.eqb_spec k0 k') as [->|Hn2].
+      * destruct (String.eqb_spec k' k); [congruence|reflexivity].
+      * exact IH.
+Qed.
+
+(* sum of all entries for a key (equals rget when the keys are unique, as in a Go map) *)
+Fixpoint rtotal (k : string) (l : rl) : Z :=
+  match l with [] => 0 | (k', v) :: t => (if String.eqb k k' then v else 0) + rtotal k t end.
+
+Lemma rtotal_notin k l : ~ List.In k (map fst l) -> rtotal k l = 0.
+Proof.
+  induction l as [|[k' v] l IH]; simpl; [reflexivity|]. intros H.
+  destruct (String.eqb_spec k k') as [->|Hn]; [exfalso; apply H; left; reflexivity|].
+  rewrite IH; [lia|]. intros Hi. apply H. right. exact Hi.
+Qed.
+
+Lemma rtotal_nodup k l : NoDup (map fst l) -> rtotal k l = rget k l.
+Proof.
+  induction l as [|[k' v] l IH]; simpl; [reflexivity|]. intros H. inversion H as [|? ? Hn Hd]; subst.
+  destruct (String.eqb_spec k k') as [->|Hne]; [rewrite rtotal_notin by exact Hn; lia|]. rewrite IH by exact Hd. lia.
+Qed.
+
+Lemma rget_rmerge_total (a b : rl) k : rget k (rmerge a b) = rget k a + rtotal k b.
+Proof.
+  unfold rmerge. revert a. induction b as [|[k' v] b IH]; intros a; simpl; [lia|].
+  rewrite IH, rget_radd1. destruct (String.eqb k k'); lia.
+Qed.
+
+(* resources.Merge adds key-wise *)
+Lemma rget_rmerge (a b : rl) k : NoDup (map fst b) -> rget k (rmerge a b) = rget k a + rget k b.
+Proof. intros H. rewrite rget_rmerge_total, rtotal_nodup by exact H. reflexivity. Qed.
+
+Lemma rget_total_for g total k : NoDup (map fst (dg_overhead g)) ->
+  rget k (total_for g total) = rget k total + rget k (dg_overhead g).
+Proof.
+  intros H. unfold total_for. destruct (dg_overhead g) as [|x t] eqn:E; [simpl; lia|].
+  rewrite rget_rmerge by exact H. reflexivity.
+Qed.
+
+(* ================================================================== taints *)
+
+Lemma tolerates_all_k8s ts tols : tolerates_all ts tols = true -> k8s_tolerated ts tols.
+Proof.
+  unfold tolerates_all, k8s_tolerated. rewrite forallb_forall. intros H ta Hin _.
+  specialize (H ta Hin). apply existsb_exists in H. exact H.
+Qed.
+
+Lemma k8s_tolerated_b_spec ts tols : k8s_tolerated_b ts tols = true <-> k8s_tolerated ts tols.
+Proof.
+  unfold k8s_tolerated_b, k8s_tolerated. rewrite forallb_forall. split.
+  - intros H ta Hin Hh. specialize (H ta Hin). rewrite Hh in H. simpl in H. apply existsb_exists in H. exact H.
+  - intros H ta Hin. destruct (hard_effect (t_eff ta)) eqn:E; [|reflexivity]. simpl.
+    apply existsb_exists. apply H; assumption.
+Qed.
+
+(* the toleration that relaxation may append never tolerates a NoSchedule / NoExecute taint *)
+Lemma pns_not_hard ta : hard_effect (t_eff ta) = true -> tolerates_taint pns_toleration ta = false.
+Proof.
+  unfold hard_effect, tolerates_taint, pns_toleration. cbn [tl_eff tl_key tl_op tl_val]. intros H.
+  assert (X : String.eqb "PreferNoSchedule" "" = false) by reflexivity. rewrite X.
+  destruct (String.eqb_spec "PreferNoSchedule" (t_eff ta)) as [E|_]; [|reflexivity].
+  rewrite <- E in H. vm_compute in H. discriminate.
+Qed.
+
+Lemma tolerated_orig ts orig extra :
+  (forall t, List.In t extra -> t = pns_toleration) ->
+  k8s_tolerated ts (orig ++ extra) -> k8s_tolerated ts orig.
+Proof.
+  intros Hx H ta Hin Hh. destruct (H ta Hin Hh) as (t & Ht & Htol).
+  apply in_app_or in Ht as [Ht|Ht]; [exists t; split; assumption|].
+  rewrite (Hx t Ht), pns_not_hard in Htol by exact Hh. discriminate.
+Qed.
+
+(* ================================================================== host ports *)
+
+(* Karpenter's HostPort.Matches is at least as strict as kube-scheduler's clash *)
+Lemma k8s_clash_matches a b : k8s_port_clash a b -> hp_matches a b = true.
+Proof.
+  intros (Hp & Hq & Hi). unfold hp_matches. rewrite Hp, Hq, String.eqb_refl, Z.eqb_refl. cbn [andb].
+  destruct Hi as [E|[E|E]].
+  - rewrite E, String.eqb_refl. reflexivity.
+  - unfold unspecified. rewrite E. rewrite (String.eqb_refl "0.0.0.0"). cbn [orb]. rewrite orb_true_r. reflexivity.
+  - unfold unspecified at 2. rewrite E. rewrite (String.eqb_refl "0.0.0.0"). cbn [orb]. rewrite !orb_true_r. reflexivity.
+Qed.
+
+Lemma k8s_port_clash_b_spec a b : k8s_port_clash_b a b = true <-> k8s_port_clash a b.
+Proof.
+  unfold k8s_port_clash_b, k8s_port_clash. rewrite !andb_true_iff, !orb_true_iff, !String.eqb_eq, Z.eqb_eq. tauto.
+Qed.
+
+(* HostPortUsage.Conflicts == nil: no requested port matches a port reserved by a DIFFERENT pod *)
+Lemma conflicts_false_spec u who ports :
+  conflicts u who ports = false <->
+  forall n, List.In n ports -> forall k ps e, List.In (k, ps) u -> k <> who -> List.In e ps -> hp_matches n e = false.
+Proof.
+  unfold conflicts. split.
+  - intros H n Hn k ps e Hin Hk He. destruct (hp_matches n e) eqn:E; [|reflexivity]. exfalso.
+    assert (X : existsb (fun n0 => existsb (fun e0 => negb (String.eqb (fst e0) who) && existsb (hp_matches n0) (snd e0)) u) ports = true).
+    { apply existsb_exists. exists n. split; [exact Hn|]. apply existsb_exists. exists (k, ps). split; [exact Hin|]. simpl.
+      destruct (String.eqb_spec k who); [congruence|]. simpl. apply existsb_exists. exists e. split; assumption. }
+    rewrite X in H. discriminate.
+  - intros H. destruct (existsb _ ports) eqn:E; [|reflexivity]. exfalso.
+    apply existsb_exists in E as (n & Hn & E). apply existsb_exists in E as ([k ps] & Hin & E). simpl in E.
+    apply andb_prop in E as [Hk E]. apply existsb_exists in E as (e & He & Hm).
+    destruct (String.eqb_spec k who); [discriminate|]. rewrite (H n Hn k ps e Hin n0 He) in Hm. discriminate.
+Qed.
+
+Lemma ports_ok_gen_b_spec ps qs dports :
+  ports_ok_gen_b ps qs dports = true <->
+  forall p, List.In p ps ->
+    (forall q, List.In q qs -> p_key q <> p_key p ->
+       forall a b, List.In a (p_ports p) -> List.In b (p_ports q) -> ~ k8s_port_clash a b) /\
+    (forall a b, List.In a (p_ports p) -> List.In b dports -> ~ k8s_port_clash a b).
+Proof.
+  unfold ports_ok_gen_b. rewrite forallb_forall. split.
+  - intros H p Hp. specialize (H p Hp). apply andb_prop in H as [H1 H2]. split.
+    + intros q Hq Hk a b Ha Hb Hc. rewrite forallb_forall in H1. specialize (H1 q Hq).
+      destruct (String.eqb_spec (p_key q) (p_key p)); [congruence|]. simpl in H1.
+      rewrite forallb_forall in H1. specialize (H1 a Ha). rewrite forallb_forall in H1. specialize (H1 b Hb).
+      apply k8s_port_clash_b_spec in Hc. rewrite Hc in H1. discriminate.
+    + intros a b Ha Hb Hc. rewrite forallb_forall in H2. specialize (H2 a Ha). rewrite forallb_forall in H2.
+      specialize (H2 b Hb). apply k8s_port_clash_b_spec in Hc. rewrite Hc in H2. discriminate.
+  - intros H p Hp. destruct (H p Hp) as [H1 H2]. apply andb_true_intro. split.
+    + apply forallb_forall. intros q Hq. destruct (String.eqb_spec (p_key q) (p_key p)) as [E|Hn]; [reflexivity|]. simpl.
+      apply forallb_forall. intros a Ha. apply forallb_forall. intros b Hb.
+      destruct (k8s_port_clash_b a b) eqn:E; [|reflexivity]. exfalso. apply (H1 q Hq Hn a b Ha Hb). apply k8s_port_clash_b_spec, E.
+    + apply forallb_forall. intros a Ha. apply forallb_forall. intros b Hb.
+      destruct (k8s_port_clash_b a b) eqn:E; [|reflexivity]. exfalso. apply (H2 a b Ha Hb). apply k8s_port_clash_b_spec, E.
+Qed.
+
+Lemma ports_ok_b_spec ps dports : ports_ok_b ps dports = true <-> ports_ok ps dports.
+Proof. apply ports_ok_gen_b_spec. Qed.
+
+(* ================================================================== resources oracle *)
+
+Lemma rget_notin k (l : rl) : ~ List.In k (map fst l) -> rget k l = 0.
+Proof.
+  induction l as [|[k' v] l IH]; simpl; [reflexivity|]. intros H.
+  destruct (String.eqb_spec k k') as [->|Hn]; [exfalso; apply H; left; reflexivity|]. apply IH. intros Hi. apply H. right. exact Hi.
+Qed.
+
+Lemma rsum_notin k (ls : list rl) : ~ List.In k (rkeys ls) -> rsum ls k = 0.
+Proof.
+  unfold rkeys. induction ls as [|l ls IH]; simpl; [reflexivity|]. intros H.
+  rewrite rget_notin, IH; [reflexivity| |]; intros Hi; apply H; apply in_or_app; [right|left]; exact Hi.
+Qed.
+
+Lemma resources_ok_b_spec ps overhead alloc :
+  resources_ok_b ps overhead alloc = true <-> resources_ok ps overhead alloc.
+Proof.
+  unfold resources_ok_b, resources_ok. rewrite forallb_forall. split.
+  - intros H k. destruct (in_dec string_dec k (rkeys (overhead :: alloc :: map p_requests ps))) as [Hi|Hn].
+    + apply Z.leb_le, H, Hi.
+    + unfold rkeys in Hn. simpl in Hn. rewrite !in_app_iff in Hn.
+      rewrite (rget_notin k overhead), (rget_notin k alloc), rsum_notin; [lia| | |]; intros Hi; apply Hn; tauto.
+  - intros H k _. apply Z.leb_le, H.
+Qed.
+
+(* ================================================================== requirement lemmas *)
+
+Lemma has_exists v : has (new_req Exists None []) v = true.
+Proof. reflexivity. Qed.
+
+(* what a key admits after Requirements.Add(rs...): what it admitted before and what every added
+   requirement on that key admits *)
+Lemma has_get_add (rs : list (string * req)) : forall (m : reqs) k0 v,
+  has (get (add m rs) k0) v =
+  has (get m k0) v && forallb (fun kr => negb (String.eqb k0 (fst kr)) || has (snd kr) v) rs.
+Proof.
+  unfold add. induction rs as [|[k r] rs IH]; intros m k0 v; simpl; [rewrite andb_true_r; reflexivity|].
+  rewrite IH, get_add1. destruct (String.eqb k0 k); simpl.
+  - rewrite (andb_comm (has r v)), andb_assoc. reflexivity.
+  - reflexivity.
+Qed.
+
+Lemma add_narrows m rs k v : has (get (add m rs) k) v = true -> has (get m k) v = true.
+Proof. rewrite has_get_add. intros H. apply andb_prop in H as [H _]. exact H. Qed.
+
+Lemma add_within m rs k r v : List.In (k, r) rs -> has (get (add m rs) k) v = true -> has r v = true.
+Proof.
+  rewrite has_get_add. intros Hin H. apply andb_prop in H as [_ H]. rewrite forallb_forall in H.
+  specialize (H (k, r) Hin). simpl in H. rewrite String.eqb_refl in H. exact H.
+Qed.
+
+Lemma get_nil k v : has (get [] k) v = true.
+Proof. reflexivity. Qed.
+
+(* a term's requirement for a key admits only values that satisfy every expression of the term on that key *)
+Lemma term_reqs_sound (t : term) k o vs v : List.In (k, o, vs) t -> valid_args o vs = true ->
+  has (get (term_reqs t) k) v = true -> k8s_match o vs (Some v) = true.
+Proof.
+  intros Hin Hv H. unfold term_reqs in H.
+  assert (Hi : List.In (k, new_req o None vs) (map expr_req t)).
+  { apply in_map_iff. exists (k, o, vs). split; [reflexivity|exact Hin]. }
+  pose proof (add_within [] _ k _ v Hi H) as Hh. rewrite has_new_req in Hh by exact Hv. exact Hh.
+Qed.
+
+Lemma sel_reqs_sound (s : list (string * string)) k val v : List.In (k, val) s ->
+  has (get (sel_reqs s) k) v = true -> k8s_match In [val] (Some v) = true.
+Proof.
+  intros Hin H. unfold sel_reqs in H.
+  assert (Hi : List.In (k, new_req In None [val]) (map (fun kv : string * string => (fst kv, new_req In None [snd kv])) s)).
+  { apply in_map_iff. exists (k, val). split; [reflexivity|exact Hin]. }
+  pose proof (add_within [] _ k _ v Hi H) as Hh. rewrite has_new_req in Hh by reflexivity. exact Hh.
+Qed.
+
+(* keys of a Requirements value built by Add are unique, so membership and lookup agree *)
+Lemma term_reqs_nodup t : nodup_keys (term_reqs t).
+Proof.
+  unfold term_reqs. apply (add_inv (map expr_req t) []); [|exact empty_inv].
+  apply Forall_forall. intros [k r] _. exact I.
+Qed.
+
+(* wf is not needed for uniqueness of keys; a variant of add_inv for the keys only *)
+Lemma nodup_add1 m kr : nodup_keys m -> nodup_keys (add1 m kr).
+Proof. destruct kr as [k r]. unfold add1. intros H. destruct (find k m); apply nodup_set, H. Qed.
+Lemma nodup_add rs : forall m, nodup_keys m -> nodup_keys (add m rs).
+Proof. unfold add. induction rs as [|kr rs IH]; intros m H; simpl; [exact H|]. apply IH, nodup_add1, H. Qed.
+
+Lemma in_reqs_get (m : reqs) k r : nodup_keys m -> List.In (k, r) m -> get m k = r.
+Proof. intros Hn Hin. unfold get. rewrite (In_find k r m Hn Hin). reflexivity. Qed.
+
+Definition valid_term (t : term) : Prop := forall k o vs, List.In (k, o, vs) t -> valid_args o vs = true.
+
+(* NewPodRequirements / NewStrictPodRequirements: every value the pod's requirement for a key admits
+   satisfies the node selector and every expression of the FIRST required term on that key *)
+Lemma pod_reqs_sound all p k v : has (get (pod_reqs all p) k) v = true ->
+  (forall val, List.In (k, val) (p_sel p) -> k8s_match In [val] (Some v) = true) /\
+  (forall t rest, p_req p = t :: rest -> valid_term t ->
+     forall o vs, List.In (k, o, vs) t -> k8s_match o vs (Some v) = true).
+Proof.
+  intros H. unfold pod_reqs in H.
+  set (r0 := sel_reqs (p_sel p)) in *.
+  set (r1 := if all then match sort_desc (p_pref p) with (_, t) :: _ => add r0 (term_reqs t) | [] => r0 end else r0) in *.
+  assert (H1 : has (get r1 k) v = true).
+  { destruct (p_req p); [exact H|apply add_narrows in H; exact H]. }
+  assert (H0 : has (get r0 k) v = true).
+  { unfold r1 in H1. destruct all; [|exact H1]. destruct (sort_desc (p_pref p)) as [|[w t] l]; [exact H1|apply add_narrows in H1; exact H1]. }
+  split.
+  - intros val Hin. apply (sel_reqs_sound _ k val v Hin H0).
+  - intros t rest E Hvt o vs Hin. rewrite E in H.
+    assert (Hi : exists r, List.In (k, r) (term_reqs t)).
+    { pose proof (term_reqs_nodup t) as Hn. unfold get. destruct (find k (term_reqs t)) as [r|] eqn:F.
+      - exists r. apply find_In, F.
+      - exfalso. (* the key of a listed expression is present *)
+        assert (X : has_key (term_reqs t) k = true).
+        { unfold term_reqs. clear -Hin. assert (G : forall rs m, (has_key m k = true \/ List.In k (map fst rs)) -> has_key (fold_left add1 rs m) k = true).
+          { induction rs as [|[k' r'] rs IH]; intros m [Hm|Hr]; simpl; try exact Hm; try (destruct Hr; fail).
+            - apply IH. left. unfold add1, has_key in *. destruct (String.eqb_spec k k') as [->|Hn].
+              + destruct (find k' m); rewrite find_set_same; reflexivity.
+              + destruct (find k' m); rewrite find_set_other by exact Hn; exact Hm.
+            - simpl in Hr. destruct Hr as [->|Hr].
+              + apply IH. left. unfold add1, has_key. destruct (find k m); rewrite find_set_same; reflexivity.
+              + apply IH. right. exact Hr. }
+          apply G. right. apply in_map_iff. exists (k, new_req o None vs). split; [reflexivity|].
+          apply in_map_iff. exists (k, o, vs). split; [reflexivity|exact Hin]. }
+        unfold has_key in X. rewrite F in X. discriminate. }
+    destruct Hi as (r & Hr). pose proof (add_within r1 _ k r v Hr H) as Hh.
+    rewrite <- (in_reqs_get _ k r (term_reqs_nodup t) Hr) in Hh.
+    apply (term_reqs_sound t k o vs v Hin (Hvt k o vs Hin) Hh).
+Qed.
+
+(* minValues relaxation does not change what a key admits *)
+Lemma find_set_minv r u k :
+  find k (set_minv r u) = option_map (fun x =>
+    match List.find (fun w => String.eqb (fst w) k) u with
+    | Some w => mkReq (compl x) (vals x) (gte x) (lte x) (Some (snd w))
+    | None => x end) (find k r).
+Proof.
+  induction r as [|[k' x] r IH]; simpl; [reflexivity|].
+  destruct (List.find (fun w => String.eqb (fst w) k') u) as [w|] eqn:F; simpl;
+  destruct (String.eqb_spec k k') as [->|Hn]; simpl; try rewrite F; try reflexivity; exact IH.
+Qed.
+
+Lemma has_set_minv r u k v : has (get (set_minv r u) k) v = has (get r k) v.
+Proof.
+  unfold get. rewrite find_set_minv. destruct (find k r) as [x|]; simpl; [|reflexivity].
+  destruct (List.find _ u); reflexivity.
+Qed.
+
+(* ================================================================== filterInstanceTypesByRequirements *)
+
+Lemma it_fits_go_sound wk gs req r : forall h, fst (it_fits_go wk gs req r h) = true ->
+  exists alloc offs o, List.In (alloc, offs) gs /\ List.In o offs /\ compatible wk r o = true /\ fits req alloc = true.
+Proof.
+  induction gs as [|[alloc offs] gs IH]; intros h; simpl; [discriminate|].
+  destruct (existsb (fun o => compatible wk r o) offs) eqn:E.
+  - destruct (fits req alloc) eqn:F.
+    + intros _. apply existsb_exists in E as (o & Ho & Hc). exists alloc, offs, o. repeat split; try assumption. left. reflexivity.
+    + intros H. destruct (IH _ H) as (a & os & o & Hi & Ho & Hc & Hf). exists a, os, o. repeat split; try assumption. right. exact Hi.
+  - intros H. destruct (IH _ H) as (a & os & o & Hi & Ho & Hc & Hf). exists a, os, o. repeat split; try assumption. right. exact Hi.
+Qed.
+
+(* what it means for instance type [i] to be a launch option of a claim with requirements [r] and summed
+   requests [total], given the daemon overhead group [g] it belongs to *)
+Definition option_ok (wk : list string) (r : reqs) (total : rl) (who : string) (ports : list hp) (g : dgroup) (i : itype) : Prop :=
+  conflicts (dg_ports g) who ports = false /\
+  it_compatible i r = true /\
+  exists alloc offs o, List.In (alloc, offs) (it_groups i) /\ List.In o offs /\
+    compatible wk r o = true /\ fits (total_for g total) alloc = true.
+
+Lemma find_it_name n cat i : find_it n cat = Some i -> it_name i = n /\ List.In i cat.
+Proof.
+  induction cat as [|j cat IH]; simpl; [discriminate|].
+  destruct (String.eqb_spec n (it_name j)) as [->|Hn].
+  - intros [= ->]. split; [reflexivity|left; reflexivity].
+  - intros H. destruct (IH H) as [H1 H2]. split; [exact H1|right; exact H2].
+Qed.
+
+Lemma group_remaining_sound wk cat elig r who ports total g i :
+  List.In i (group_remaining wk cat elig r who ports total g) ->
+  mem (it_name i) elig = true /\ List.In (it_name i) (dg_its g) /\ List.In i cat /\ option_ok wk r total who ports g i.
+Proof.
+  unfold group_remaining. destruct (conflicts (dg_ports g) who ports) eqn:C; [intros []|].
+  rewrite in_flat_map. intros (n & Hn & Hi).
+  destruct (mem n elig) eqn:M; [|destruct Hi].
+  destruct (find_it n cat) as [j|] eqn:F; [|destruct Hi].
+  destruct (it_ok wk j (total_for g total) r) eqn:O; [|destruct Hi].
+  destruct Hi as [<-|[]]. destruct (find_it_name _ _ _ F) as [Hname Hcat]. rewrite Hname.
+  unfold it_ok in O. apply andb_prop in O as [O Hoff]. apply andb_prop in O as [Hc Hf].
+  repeat split; try assumption. apply (it_fits_go_sound wk _ _ _ false Hf).
+Qed.
+
+Lemma filter_its_sound wk cat elig r who ports groups total relax rem unsat :
+  filter_its wk cat elig r who ports groups total relax = (rem, unsat, None) ->
+  rem <> [] /\
+  forall i, List.In i rem ->
+    mem (it_name i) elig = true /\ List.In i cat /\
+    exists g, List.In g groups /\ List.In (it_name i) (dg_its g) /\ option_ok wk r total who ports g i.
+Proof.
+  unfold filter_its.
+  set (remaining := flat_map (group_remaining wk cat elig r who ports total) groups).
+  set (us := if has_min_values r then min_values_unsat remaining r else []).
+  set (sf := match us with [] => false | _ => negb relax end).
+  destruct (if sf then [] else remaining) as [|x l] eqn:E; [discriminate|].
+  intros [= <- _]. split; [discriminate|]. intros i Hi.
+  assert (Hr : List.In i remaining). { destruct sf; [discriminate|]. rewrite E. exact Hi. }
+  unfold remaining in Hr. apply in_flat_map in Hr as (g & Hg & Hin).
+  destruct (group_remaining_sound _ _ _ _ _ _ _ _ _ Hin) as (H1 & H2 & H3 & H4).
+  split; [exact H1|]. split; [exact H3|]. exists g. repeat split; assumption.
+Qed.
+
+(* ================================================================== NodeClaim steps *)
+
+(* the requirements the filter ran with (before minValues are lowered) *)
+Definition step_reqs (all : bool) (n : nclaim) (p : pod) : reqs := add (nc_reqs n) (pod_reqs all p).
+
+Lemma nc_can_add_ok wk cat all relax n p r its :
+  nc_can_add wk cat all relax n p = Ok (r, its) ->
+  tolerates_all (nc_taints n) (p_tols p) = true /\
+  compatible wk (nc_reqs n) (pod_reqs all p) = true /\
+  (forall k v, has (get r k) v = has (get (step_reqs all n p) k) v) /\
+  its <> [] /\
+  forall name, List.In name its ->
+    mem name (nc_its n) = true /\
+    exists i g, List.In i cat /\ it_name i = name /\ List.In g (nc_groups n) /\ List.In name (dg_its g) /\
+      option_ok wk (step_reqs all n p) (rmerge (nc_requests n) (p_requests p)) (p_key p) (p_ports p) g i.
+Proof.
+  unfold nc_can_add, step_reqs.
+  destruct (tolerates_all (nc_taints n) (p_tols p)) eqn:T; simpl; [|discriminate].
+  destruct (compatible wk (nc_reqs n) (pod_reqs all p)) eqn:C; simpl; [|discriminate].
+  destruct (filter_its wk cat (nc_its n) (add (nc_reqs n) (pod_reqs all p)) (p_key p) (p_ports p) (nc_groups n)
+              (rmerge (nc_requests n) (p_requests p)) relax) as [[rem unsat] fe] eqn:F.
+  destruct fe as [[| ]|]; try discriminate. intros [= <- <-].
+  destruct (filter_its_sound _ _ _ _ _ _ _ _ _ _ _ F) as [Hne Hall].
+  split; [reflexivity|]. split; [reflexivity|]. split.
+  { intros k v. destruct relax; [apply has_set_minv|reflexivity]. }
+  split. { destruct rem; [congruence|discriminate]. }
+  intros name Hn. apply in_map_iff in Hn as (i & <- & Hi).
+  destruct (Hall i Hi) as (H1 & H2 & g & Hg & Hd & Ho).
+  split; [exact H1|]. exists i, g. repeat split; assumption.
+Qed.
+
+(* running any sequence of scheduler steps against one claim *)
+Fixpoint nc_exec (wk : list string) (cat : list itype) (all : bool) (n : nclaim) (ops : list (pod * bool)) : nclaim :=
+  match ops with
+  | [] => n
+  | (p, rx) :: rest => nc_exec wk cat all (fst (nc_step wk cat all rx n p)) rest
+  end.
+
+(* Inv: requests are the sum over the placed pods; every placed pod tolerates the taints; every value the claim
+   admits for a key satisfies the selector and the first required term of every placed (relaxed) pod; every
+   remaining instance type is a valid launch option for the summed requests *)
+Definition pod_wf (p : pod) : Prop :=
+  NoDup (map fst (p_requests p)) /\ (forall t rest, p_req p = t :: rest -> valid_term t).
+
+Definition values_ok (r : reqs) (p : pod) : Prop :=
+  forall k v, has (get r k) v = true ->
+    (forall val, List.In (k, val) (p_sel p) -> k8s_match In [val] (Some v) = true) /\
+    (forall t rest, p_req p = t :: rest -> forall o vs, List.In (k, o, vs) t -> k8s_match o vs (Some v) = true).
+
+Definition nc_inv (wk : list string) (cat : list itype) (n : nclaim) : Prop :=
+  (forall k, rget k (nc_requests n) = rsum (map p_requests (nc_pods n)) k) /\
+  (forall p, List.In p (nc_pods n) -> k8s_tolerated (nc_taints n) (p_tols p) /\ values_ok (nc_reqs n) p) /\
+  (nc_pods n <> [] -> forall name, List.In name (nc_its n) ->
+     exists i g alloc offs o, List.In i cat /\ it_name i = name /\ List.In g (nc_groups n) /\ List.In name (dg_its g) /\
+       it_compatible i (nc_reqs n) = true /\
+       List.In (alloc, offs) (it_groups i) /\ List.In o offs /\ compatible wk (nc_reqs n) o = true /\
+       fits (total_for g (nc_requests n)) alloc = true).
+
+Lemma rsum_app ls l k : rsum (ls ++ [l]) k = rsum ls k + rget k l.
+Proof. unfold rsum. induction ls as [|x ls IH]; simpl; [lia|]. rewrite IH. lia. Qed.
+
+(* minValues do not take part in compatibility *)
+Lemma has_key_set_minv r u k : has_key (set_minv r u) k = has_key r k.
+Proof. unfold has_key. rewrite find_set_minv. destruct (find k r); reflexivity. Qed.
+
+Definition same_but_minv (a b : req) : Prop := compl a = compl b /\ vals a = vals b /\ gte a = gte b /\ lte a = lte b.
+
+Lemma has_intersection_minv a a' b : same_but_minv a a' -> has_intersection a b = has_intersection a' b.
+Proof. intros (H1 & H2 & H3 & H4). unfold has_intersection. rewrite H1, H2, H3, H4. reflexivity. Qed.
+Lemma has_intersection_minv_r a b b' : same_but_minv b b' -> has_intersection a b = has_intersection a b'.
+Proof. intros (H1 & H2 & H3 & H4). unfold has_intersection. rewrite H1, H2, H3, H4. reflexivity. Qed.
+Lemma sat_undefined_minv a a' : same_but_minv a a' -> sat_undefined a = sat_undefined a'.
+Proof. intros (H1 & H2 & H3 & H4). unfold sat_undefined, operator, rlen. rewrite H1, H2, H3, H4. reflexivity. Qed.
+
+Lemma find_set_minv_same r u k :
+  match find k r, find k (set_minv r u) with
+  | Some a, Some a' => same_but_minv a a'
+  | None, None => True
+  | _, _ => False
+  end.
+Proof.
+  rewrite find_set_minv. destruct (find k r) as [x|]; simpl; [|exact I].
+  destruct (List.find _ u); repeat split; reflexivity.
+Qed.
+
+Lemma set_minv_keys r u : map fst (set_minv r u) = map fst r.
+Proof. unfold set_minv. rewrite map_map. apply map_ext. intros [k x]. simpl. destruct (List.find _ u); reflexivity. Qed.
+
+Lemma in_set_minv r u k x' : List.In (k, x') (set_minv r u) -> exists x, List.In (k, x) r /\ same_but_minv x x'.
+Proof.
+  unfold set_minv. rewrite in_map_iff. intros ([k0 x] & E & Hin). simpl in E.
+  destruct (List.find _ u); inversion E; subst; exists x; (split; [exact Hin|repeat split; reflexivity]).
+Qed.
+
+Lemma compatible_set_minv wk r u o : nodup_keys r -> compatible wk (set_minv r u) o = compatible wk r o.
+Proof.
+  intros Hnd. unfold compatible. f_equal.
+  - apply forallb_ext. intros [k rb]. rewrite has_key_set_minv. reflexivity.
+  - unfold intersects. apply eq_true_iff_eq. rewrite !forallb_forall. split.
+    + intros H [k x] Hin. pose proof (find_set_minv_same r u k) as S. rewrite (In_find k x r Hnd Hin) in S.
+      destruct (find k (set_minv r u)) as [x'|] eqn:F; [|destruct S].
+      specialize (H (k, x') (find_In _ _ _ F)). simpl in H. destruct (find k o) as [rb|]; [|reflexivity].
+      rewrite (has_intersection_minv x x' rb S), (sat_undefined_minv x x' S). exact H.
+    + intros H [k x'] Hin. destruct (in_set_minv _ _ _ _ Hin) as (x & Hx & S).
+      specialize (H (k, x) Hx). simpl in H. destruct (find k o) as [rb|]; [|reflexivity].
+      rewrite <- (has_intersection_minv x x' rb S), <- (sat_undefined_minv x x' S). exact H.
+Qed.
+
+Lemma intersects_set_minv a r u : nodup_keys r -> intersects a (set_minv r u) = intersects a r.
+Proof.
+  intros Hnd. unfold intersects. apply forallb_ext. intros [k ex].
+  pose proof (find_set_minv_same r u k) as S.
+  destruct (find k r) as [x|], (find k (set_minv r u)) as [x'|]; try destruct S; try reflexivity.
+  rewrite (has_intersection_minv_r ex x x' S), (sat_undefined_minv x x' S). reflexivity.
+Qed.
+
+Definition nc_wf (n : nclaim) : Prop :=
+  nodup_keys (nc_reqs n) /\ forall g, List.In g (nc_groups n) -> NoDup (map fst (dg_overhead g)).
+
+Lemma nc_can_add_reqs_eq wk cat all relax n p r its :
+  nc_can_add wk cat all relax n p = Ok (r, its) ->
+  exists u, r = (if relax then set_minv (step_reqs all n p) u else step_reqs all n p).
+Proof.
+  unfold nc_can_add, step_reqs.
+  destruct (tolerates_all _ _); simpl; [|discriminate]. destruct (compatible wk _ _); simpl; [|discriminate].
+  destruct (filter_its _ _ _ _ _ _ _ _ _) as [[rem unsat] fe]. destruct fe as [[| ]|]; try discriminate.
+  intros [= <- _]. exists unsat. reflexivity.
+Qed.
+
+Lemma nc_step_preserves wk cat all rx n p :
+  nc_wf n -> pod_wf p -> nc_inv wk cat n ->
+  nc_wf (fst (nc_step wk cat all rx n p)) /\ nc_inv wk cat (fst (nc_step wk cat all rx n p)).
+Proof.
+  intros [Wn Wg] [Wp Wt] (I1 & I2 & I3). unfold nc_step.
+  destruct (nc_can_add wk cat all rx n p) as [[r its]|e] eqn:C; simpl; [|split; [split; assumption|repeat split; assumption]].
+  destruct (nc_can_add_ok _ _ _ _ _ _ _ _ C) as (HT & HC & HR & Hne & Hits).
+  destruct (nc_can_add_reqs_eq _ _ _ _ _ _ _ _ C) as (u & Er).
+  assert (Wstep : nodup_keys (step_reqs all n p)) by (apply nodup_add, Wn).
+  assert (Wr : nodup_keys r).
+  { rewrite Er. destruct rx; [|exact Wstep]. unfold nodup_keys. rewrite set_minv_keys. exact Wstep. }
+  split.
+  { split; [exact Wr|]. simpl. intros g Hg. apply in_map_iff in Hg as (g0 & <- & Hg0). simpl. apply Wg, Hg0. }
+  split; [|split].
+  - intros k. simpl. rewrite map_app, rsum_app, rget_rmerge, I1 by exact Wp. reflexivity.
+  - intros q Hq. simpl in Hq. apply in_app_or in Hq as [Hq|[<-|[]]]; simpl.
+    + destruct (I2 q Hq) as [Ht Hv]. split; [exact Ht|].
+      intros k v Hh. rewrite HR in Hh. unfold step_reqs in Hh. apply add_narrows in Hh. apply (Hv k v Hh).
+    + split; [apply tolerates_all_k8s, HT|].
+      intros k v Hh. rewrite HR in Hh. unfold step_reqs in Hh.
+      assert (Hp : has (get (pod_reqs all p) k) v = true).
+      { rewrite has_get_add in Hh. apply andb_prop in Hh as [_ Hh].
+        unfold get. destruct (find k (pod_reqs all p)) as [x|] eqn:F; [|reflexivity].
+        rewrite forallb_forall in Hh. specialize (Hh (k, x) (find_In _ _ _ F)). simpl in Hh. rewrite String.eqb_refl in Hh. exact Hh. }
+      destruct (pod_reqs_sound all p k v Hp) as [S1 S2]. split; [exact S1|].
+      intros t rest E o vs Hin. apply (S2 t rest E (Wt t rest E) o vs Hin).
+  - intros _ name Hn. simpl in Hn. destruct (Hits name Hn) as (_ & i & g & Hi & Hnm & Hg & Hd & Hc & Hcomp & alloc & offs & o & Ha & Ho & Hco & Hf).
+    exists i, (mkDG (dg_its g) (dg_overhead g) (uset (dg_ports g) (p_key p) (p_ports p))), alloc, offs, o. simpl.
+    assert (Ecomp : forall oo, compatible wk r oo = compatible wk (step_reqs all n p) oo).
+    { intros oo. rewrite Er. destruct rx; [apply compatible_set_minv, Wstep|reflexivity]. }
+    assert (Eint : it_compatible i r = it_compatible i (step_reqs all n p)).
+    { unfold it_compatible. rewrite Er. destruct rx; [apply intersects_set_minv, Wstep|reflexivity]. }
+    repeat split; try assumption.
+    + apply in_map_iff. exists g. split; [reflexivity|exact Hg].
+    + rewrite Eint. exact Hcomp.
+    + rewrite Ecomp. exact Hco.
+Qed.
+
+Lemma nc_exec_inv wk cat all ops : forall n,
+  nc_wf n -> Forall (fun op => pod_wf (fst op)) ops -> nc_inv wk cat n ->
+  nc_wf (nc_exec wk cat all n ops) /\ nc_inv wk cat (nc_exec wk cat all n ops).
+Proof.
+  induction ops as [|[p rx] ops IH]; intros n Wn Wops I; simpl; [split; assumption|].
+  inversion Wops as [|? ? Wp Wrest]; subst. simpl in Wp.
+  destruct (nc_step_preserves wk cat all rx n p Wn Wp I) as [Wn' I'].
+  apply IH; assumption.
+Qed.
+
+(* a freshly created claim (no pods, no requests) satisfies the invariant *)
+Lemma nc_inv_init wk cat n : nc_pods n = [] -> nc_requests n = [] -> nc_inv wk cat n.
+Proof.
+  intros Hp Hr. unfold nc_inv. rewrite Hp, Hr. repeat split; try (intros ? []); try reflexivity. intros H. congruence.
+Qed.
+
+(* ---- from the invariant to Kubernetes admissibility of every launch option ---- *)
+
+(* the first required term of the relaxed pod is one of the original pod's terms *)
+Definition chosen_ok (r : reqs) (p : pod) : Prop :=
+  forall k, (exists v, has (get r k) v = true) ->
+    (forall val, List.In (k, val) (p_sel p) -> sat_all (get r k) In [val]) /\
+    (forall t rest, p_req p = t :: rest -> forall o vs, List.In (k, o, vs) t -> sat_all (get r k) o vs).
+
+(* whenever the claim's requirement for a key admits a value at all, every label the node may get satisfies the
+   pod's constraints on that key *)
+Lemma values_ok_sat_all r p : values_ok r p -> chosen_ok r p.
+Proof.
+  intros H k (v0 & Hv0). split.
+  - intros val Hin lbl Hm. destruct lbl as [v|]; simpl in Hm; [apply (proj1 (H k v Hm) val Hin)|].
+    rewrite Hm in Hv0. discriminate.
+  - intros t rest E o vs Hin lbl Hm. destruct lbl as [v|]; simpl in Hm; [apply (proj2 (H k v Hm) t rest E o vs Hin)|].
+    rewrite Hm in Hv0. discriminate.
+Qed.
+
+Theorem nc_options_admissible_l wk cat all n0 ops :
+  nc_wf n0 -> nc_pods n0 = [] -> nc_requests n0 = [] -> Forall (fun op => pod_wf (fst op)) ops ->
+  let n := nc_exec wk cat all n0 ops in
+  (forall p, List.In p (nc_pods n) -> k8s_tolerated (nc_taints n) (p_tols p) /\ chosen_ok (nc_reqs n) p) /\
+  (nc_pods n <> [] -> forall name, List.In name (nc_its n) ->
+     exists i g alloc offs o, List.In i cat /\ it_name i = name /\ List.In g (nc_groups n) /\ List.In name (dg_its g) /\
+       List.In (alloc, offs) (it_groups i) /\ List.In o offs /\ compatible wk (nc_reqs n) o = true /\
+       resources_ok (nc_pods n) (dg_overhead g) alloc).
+Proof.
+  intros Wn Hp Hr Wops n.
+  destruct (nc_exec_inv wk cat all ops n0 Wn Wops (nc_inv_init wk cat n0 Hp Hr)) as [[_ Wg] (I1 & I2 & I3)].
+  fold n in Wg, I1, I2, I3. split.
+  - intros p Hin. destruct (I2 p Hin) as [Ht Hv]. split; [exact Ht|apply values_ok_sat_all, Hv].
+  - intros Hne name Hn. destruct (I3 Hne name Hn) as (i & g & alloc & offs & o & Hi & Hnm & Hg & Hd & _ & Ha & Ho & Hc & Hf).
+    exists i, g, alloc, offs, o. repeat split; try assumption.
+    intros k. pose proof (fits_spec _ _ Hf k) as Hk. rewrite rget_total_for in Hk by (apply Wg, Hg). rewrite I1 in Hk. exact Hk.
+Qed.
+
+(* ================================================================== ExistingNode steps *)
+
+Fixpoint ex_exec (all : bool) (n : enode) (ops : list pod) : enode :=
+  match ops with [] => n | p :: rest => ex_exec all (fst (ex_step all n p)) rest end.
+
+Definition ex_inv (rem0 : rl) (n : enode) : Prop :=
+  (forall k, rget k (en_remaining n) = rget k rem0 - rsum (map p_requests (en_pods n)) k) /\
+  (forall k, 0 <= rget k (en_remaining n)) /\
+  (forall p, List.In p (en_pods n) -> k8s_tolerated (en_taints n) (p_tols p) /\ values_ok (en_reqs n) p).
+
+Lemma rget_rsub_from dest src k : NoDup (map fst src) -> rget k (rsub_from dest src) = rget k dest - rget k src.
+Proof.
+  intros H. unfold rsub_from.
+  assert (G : forall s d, rget k (fold_left (fun acc kv => radd1 acc (fst kv) (- snd kv)) s d) = rget k d - rtotal k s).
+  { induction s as [|[k' v] s IH]; intros d; simpl; [lia|]. rewrite IH, rget_radd1. destruct (String.eqb k k'); lia. }
+  rewrite G, rtotal_nodup by exact H. reflexivity.
+Qed.
+
+Lemma ex_step_preserves all rem0 n p : pod_wf p -> ex_inv rem0 n -> ex_inv rem0 (fst (ex_step all n p)).
+Proof.
+  intros [Wp Wt] (I1 & I0 & I2). unfold ex_step, ex_can_add.
+  destruct (tolerates_all (en_taints n) (p_tols p)) eqn:T; simpl; [|repeat split; assumption].
+  destruct (conflicts (en_ports n) (p_key p) (p_ports p)) eqn:C; simpl; [repeat split; assumption|].
+  destruct (fits (p_requests p) (en_remaining n)) eqn:F; simpl; [|repeat split; assumption].
+  destruct (compatible [] (en_reqs n) (pod_reqs all p)) eqn:Co; simpl; [|repeat split; assumption].
+  split; [|split].
+  - intros k. rewrite rget_rsub_from, map_app, rsum_app, I1 by exact Wp. lia.
+  - intros k. rewrite rget_rsub_from by exact Wp. pose proof (fits_spec _ _ F k). lia.
+  - intros q Hq. apply in_app_or in Hq as [Hq|[<-|[]]].
+    + destruct (I2 q Hq) as [Ht Hv]. split; [exact Ht|]. intros k v Hh. apply add_narrows in Hh. apply (Hv k v Hh).
+    + split; [apply tolerates_all_k8s, T|]. intros k v Hh.
+      assert (Hp : has (get (pod_reqs all p) k) v = true).
+      { rewrite has_get_add in Hh. apply andb_prop in Hh as [_ Hh].
+        unfold get. destruct (find k (pod_reqs all p)) as [x|] eqn:Fk; [|reflexivity].
+        rewrite forallb_forall in Hh. specialize (Hh (k, x) (find_In _ _ _ Fk)). simpl in Hh. rewrite String.eqb_refl in Hh. exact Hh. }
+      destruct (pod_reqs_sound all p k v Hp) as [S1 S2]. split; [exact S1|].
+      intros t rest E o vs Hin. apply (S2 t rest E (Wt t rest E) o vs Hin).
+Qed.
+
+Theorem ex_exec_inv_l all rem0 ops : forall n,
+  Forall pod_wf ops -> ex_inv rem0 n -> ex_inv rem0 (ex_exec all n ops).
+Proof.
+  induction ops as [|p ops IH]; intros n W I; simpl; [exact I|].
+  inversion W; subst. apply IH; [assumption|]. apply ex_step_preserves; assumption.
+Qed.
+
+(* the pods placed on an existing node never exceed what was left for them (remaining resources = available
+   minus the daemons still to come) *)
+Theorem ex_resources_l all ops n0 :
+  Forall pod_wf ops -> en_pods n0 = [] -> (forall k, 0 <= rget k (en_remaining n0)) ->
+  let n := ex_exec all n0 ops in
+  forall k, rsum (map p_requests (en_pods n)) k <= rget k (en_remaining n0).
+Proof.
+  intros W Hp Hnn n k.
+  assert (I : ex_inv (en_remaining n0) n0).
+  { unfold ex_inv. rewrite Hp. repeat split; try (intros ? []); simpl; [intros; lia|exact Hnn]. }
+  destruct (ex_exec_inv_l all _ ops n0 W I) as (I1 & I0 & _). fold n in I1, I0.
+  specialize (I1 k). specialize (I0 k). lia.
+Qed.
